@@ -504,7 +504,12 @@ def mutate(doc, rng, kind=None):
         if not cands:
             return None
         s = rng.choice(cands)
-        key = rng.choice(["extra", "kinds", "Level", "path2", "x"])
+        # an invented key, or - half of the time - a key that IS valid in some other section of a document
+        # (`additive` in the root, `level` in an appender, `appenders` in a roller ...): unknown where it stands
+        key = rng.choice(["extra", "kinds", "Level", "path2", "x"]) if rng.chance(1, 2) else rng.choice(
+            ["additive", "appenders", "level", "kind", "path", "pattern", "encoder", "filters", "limit", "count", "base",
+             "target", "tty_only", "append", "refresh_rate", "name", "root", "loggers", "policy", "trigger", "roller",
+             "interval", "modulate", "max_random_delay", "min_size"])
         if key in s:
             return None
         s[key] = rng.choice([1, "v", True, [], {}])
